@@ -55,6 +55,9 @@ type Scenario struct {
 	Name    string
 	World   *world.World
 	Configs []schedrun.Config
+	// Variant, when set, is the family whose environment, oracles and depth apply to this scenario
+	// (lets one check mix transition systems, e.g. stub bind events and the real binder).
+	Variant *Family
 }
 
 // Oracle inspects one cycle transition.
@@ -81,6 +84,8 @@ type Family struct {
 	MacroEnv bool
 	// OnPath is called for every complete explored state with its path (lasso detection etc.)
 	StateOracle func(scn *Scenario, path []Step, canonPath []string, w *world.World) []engine.Violation
+	// ExtraEnv supplies additional environment events (e.g. a REAL binder reconcile) besides Env.
+	ExtraEnv func(w *world.World) []EnvEvent
 	// Extra runs once in the parent process: additional exhaustive sub-checks of the same property
 	// whose coverage and violations are merged into the family's evidence.
 	Extra func(tier string) (map[string]any, []engine.Violation)
@@ -132,6 +137,9 @@ func decisionLog(ds []schedrun.Decision) string {
 
 // Explore runs the bounded BFS for one scenario.
 func (f *Family) Explore(scn *Scenario, tier string, maxStates int) *ScenarioStats {
+	if scn.Variant != nil {
+		return scn.Variant.Explore(&Scenario{Name: scn.Name, World: scn.World, Configs: scn.Configs}, tier, maxStates)
+	}
 	st := &ScenarioStats{Scenario: scn.Name, Extra: map[string]int{}}
 	depth := f.Depth(tier)
 	faultDepth := 0
@@ -324,7 +332,11 @@ func (f *Family) Explore(scn *Scenario, tier string, maxStates int) *ScenarioSta
 		}
 		// environment transitions
 		if !f.MacroEnv {
-			for _, e := range StdEnvEvents(n.w, f.Env) {
+			evs := StdEnvEvents(n.w, f.Env)
+			if f.ExtraEnv != nil {
+				evs = append(evs, f.ExtraEnv(n.w)...)
+			}
+			for _, e := range evs {
 				w2 := n.w.Clone()
 				e.Apply(w2)
 				st.EnvSteps++
@@ -382,8 +394,20 @@ func (f *Family) ReplayPath(r *Replay) (*Transition, error) {
 			}
 		case "env":
 			w = w.Clone()
-			if err := ApplyEnvByName(w, s.Event); err != nil {
-				return nil, err
+			applied := false
+			if f.ExtraEnv != nil {
+				for _, e := range f.ExtraEnv(w) {
+					if e.Name == s.Event {
+						e.Apply(w)
+						applied = true
+						break
+					}
+				}
+			}
+			if !applied {
+				if err := ApplyEnvByName(w, s.Event); err != nil {
+					return nil, err
+				}
 			}
 		}
 	}
